@@ -158,7 +158,7 @@ def run(rep, tier, seed):
     rng = random.Random(seed)
     rep.coverage["rule"] = (
         "frame lists (type classes: 1/2/3-10 byte varints up to 2^70; payload lengths 0..400 and 16383/16384/16385/70000) "
-        "x chunkings (one chunk, single cut, 1-byte chunks, random multi-cut, empty chunks, dense cuts around a position) "
+        "x chunkings (one chunk, single cut, 1-byte chunks, random multi-cut, empty chunks, dense cuts around a position; 127..1500 tiny frames in one to four reads) "
         "x chunk buffer types (bytes/bytearray/memoryview) + malformed stream (bad preambles, truncations, garbage); "
         "non-trivial = at least one frame is split across two or more chunks, or the stream is malformed; distinct by sha1 of (chunks, kinds)"
     )
@@ -200,6 +200,18 @@ def run(rep, tier, seed):
         chunks, mode = gen_chunking(rng, stream + tail)
         kinds = [rng.randrange(3) for _ in chunks]
         cases.append((mode, fs, tail, chunks, kinds, True))
+    # many complete frames in one read (every one of them is due when the call returns, however many there are)
+    for i in range(8 if tier == "quick" else 60):
+        n = [127, 128, 129, 130, 200, 257, 600, 1500][i % 8]
+        fs = [(rng.choice([1, 2, 7, 26, 300]), rng.randbytes(rng.choice([0, 0, 1, 2, 5]))) for _ in range(n)]
+        stream = b"".join(enc_frame(*f) for f in fs)
+        if i % 3 == 0:
+            chunks = [stream]
+        elif i % 3 == 1:
+            chunks = cut(stream, [rng.randrange(0, len(stream) + 1)])
+        else:
+            chunks = cut(stream, [rng.randrange(0, len(stream) + 1) for _ in range(3)])
+        cases.append(("many", fs, b"", chunks, [rng.randrange(3) for _ in chunks], True))
     # malformed stream
     for i in range(n_rand // 5):
         fs = gen_frames(rng)
